@@ -469,6 +469,10 @@ Proof.
     destruct (sdrive toks spn (sem n) n i ctx (mk_iter i ctx) None [] [] p a) as [[[[[[its fl] p1] e1]|] a1]|] eqn:E; try discriminate;
       eapply (sdrive_mono _ IH IHE) with (p0 := p) in E; eauto; destruct E as (S1 & S2); injection H as <- <-; split; auto; discriminate.
   - (* CollectExactly *)
+    match type of H with (match ?k with 0 => match ?x with Some e0 => _ | None => ?B end | S _ => _ end = ?rhs) =>
+      match goal with |- ?Gl =>
+        assert (HB : B = rhs -> Gl); [clear H; intros H|
+          destruct k; [destruct x; [exact (IH _ _ _ _ _ _ (eq_refl : norec (TryMap PFalse FId _ Empty) = true) He Hp H)|exact (HB H)]|exact (HB H)]] end end.
     destruct (sdrive toks spn (sem n) (S n0) i ctx (mk_iter i ctx) (Some n0) [] [] p a) as [[[[[[its fl] p1] e1]|] a1]|] eqn:E; try discriminate.
     + pose proof (sdrive_ext toks spn (sem n) IHE _ _ _ _ _ _ _ _ _ _ _ _ _ _ E Hp) as X.
       eapply (sdrive_mono _ IH IHE) with (p0 := p) in E; eauto. destruct E as (S1 & S2).
